@@ -338,6 +338,14 @@ func runFullApp(w *bufio.Writer, id int, profile string, seed uint64, nOps int) 
 		case "CFA", "CBA", "CAN", "BID", "MOD", "ADDMSG":
 			txs++
 			now := a.ctx.BlockTime()
+			if g.r.P(35) {
+				// the transaction travels in a block of its own time: often exactly a start, end or release instant,
+				// so that the order "lifecycle first, then the transactions of the block" matters
+				if t := time.Unix(0, g.blockTime()).UTC(); t.After(now) {
+					now = t
+					b.now = t
+				}
+			}
 			if _, who := b.buildMsg(o); who >= 0 && g.r.P(5) {
 				// somebody else signs a message that names user `who`: the application must refuse it and change nothing
 				other := (who + 1 + g.r.N(NUsers-1)) % NUsers
@@ -359,6 +367,16 @@ func runFullApp(w *bufio.Writer, id int, profile string, seed uint64, nOps int) 
 			rb = b.deliver(o, -1)
 			if rb.Class == "ok" {
 				acceptedTotal++
+				if o.Kind == "BID" || o.Kind == "MOD" {
+					// C08 on the application path: a bid or a modification is accepted only while the auction is open.
+					// A block runs the lifecycle first and its transactions afterwards, and no transaction changes the
+					// status of an open auction, so the auction must still be open when the block is over; if it is
+					// not, the block that took the bid also settled it
+					if au, err := b.k.Auction.Get(b.ctx, pU64(o.F["a"])); err == nil && au.GetStatus() != types.AuctionStatusStarted {
+						fmt.Fprintf(w, "FULLCHECK hist=%d step=%d prop=C08 checker=accepted_only_while_open op=[%s] detail=[the application accepted this in a block of time %d, after which auction %s has status %d: the block that took it also closed the auction] gen=fullapp-%s seed=%d\n",
+							id, steps-1, o.String(), b.now.UnixNano(), o.F["a"], int(au.GetStatus()), profile, seed)
+					}
+				}
 			}
 		case "BLOCK":
 			_, ra, _ = a.Exec(o)
